@@ -36,7 +36,7 @@ WATCHDOG_S = {"quick": 900, "thorough": 3400}
 SHARD_BUDGET_S = {"quick": 40, "thorough": 600}
 
 OPS = ("mul", "rmul", "add", "eq", "x", "y", "to_affine", "scale", "double", "neg", "mul_add", "pickle", "verify", "precompute", "precompute_lazy", "sign", "to_string", "mulS", "addGS",
-       "pickleS", "to_affineG", "scaleG", "xS", "yG", "pickle_vk", "mul_addQ", "verify2", "copy_vk", "deepcopy_sk", "to_affineQ2", "mul_add_rev", "negS", "addSG", "sign_other_hash", "sign_default_hash", "verify_default_hash", "verify_bad")
+       "pickleS", "to_affineG", "scaleG", "xS", "yG", "pickle_vk", "mul_addQ", "verify2", "copy_vk", "deepcopy_sk", "to_affineQ2", "mul_add_rev", "negS", "addSG", "sign_other_hash", "sign_default_hash", "verify_default_hash", "verify_bad", "addSQ2")
 
 
 DIRECTED = [("pickle", "to_affineG"), ("pickle", "scaleG"), ("pickleS", "to_affine"), ("pickleS", "scale"), ("pickle", "mul"), ("pickle", "mul_add"),
@@ -46,7 +46,10 @@ DIRECTED = [("pickle", "to_affineG"), ("pickle", "scaleG"), ("pickleS", "to_affi
             ("mul_add", "mul_add_rev"), ("mul_add_rev", "mul_add"), ("negS", "scale"), ("scale", "negS"), ("addGS", "addSG"), ("mul_add", "mul_addQ"), ("verify", "verify2"), ("copy_vk", "sign"), ("deepcopy_sk", "verify"), ("copy_vk", "mul"), ("to_affine", "to_affineQ2"), ("to_affineQ2", "to_affineQ2"),
             # the same operation with DIFFERENT arguments on one shared object, and a genuine next to a forged signature on one key: whatever an
             # operation remembers about "the last call" is written by both threads; the re-execution after the run asks again
-            ("mulS", "mulS"), ("verify", "verify_bad"), ("verify_bad", "verify"), ("mulS", "mul_add_rev")]
+            ("mulS", "mulS"), ("verify", "verify_bad"), ("verify_bad", "verify"), ("mulS", "mul_add_rev"),
+            # two shared points that carry the SAME scaling factor Z != 1 (co-Z: what a batch conversion or a common table leaves behind) added
+            # while another thread rescales / multiplies one of them
+            ("addSQ2", "to_affine"), ("to_affine", "addSQ2"), ("addSQ2", "mulS"), ("mulS", "addSQ2"), ("addSQ2", "scale"), ("addSQ2", "to_affineQ2")]
 
 
 def monitored_codes():
@@ -117,6 +120,8 @@ class Scenario(object):
         self.sig2 = sigs.ref_encode("string", rs2[0], rs2[1], n)
         self.PQ2 = cv.mul(rng.randrange(1, n), dom.G)
         self.zQ2 = rng.randrange(2, p)
+        if rng.random() < 0.5:
+            self.zQ2 = self.zS          # co-Z with S in every second scenario
         self.age = rng.choice((0, 0, 70, 300, 1100))
         self.plans = []
         for t in range(nthreads):
@@ -164,6 +169,8 @@ class Scenario(object):
             return cv.add(G, Q)
         if op == "addGS":
             return cv.add(G, Sp)
+        if op == "addSQ2":
+            return cv.add(Sp, self.PQ2)
         if op == "eq":
             return (G == Sp, True)
         if op == "x":
@@ -249,6 +256,8 @@ def perform(sh, sc, op, arg, arg2):
         return aff(G + Q)
     if op == "addGS":
         return aff(G + Sp)
+    if op == "addSQ2":
+        return aff(Sp + sh["Q2"])
     if op == "eq":
         return (G == Sp, Sp == Sp)
     if op == "x":
@@ -331,7 +340,7 @@ def perform(sh, sc, op, arg, arg2):
     raise ValueError(op)
 
 
-OPCLS = {"verify_bad": "verify", "sign_other_hash": "sign", "sign_default_hash": "sign", "verify_default_hash": "verify", "mul_add_rev": "mul_add", "negS": "neg", "addSG": "add", "mul_addQ": "mul_add", "verify2": "verify", "copy_vk": "pickle", "deepcopy_sk": "pickle", "to_affineQ2": "to_affine", "mul": "mul", "rmul": "mul", "mulS": "mul", "add": "add", "addGS": "add", "precompute_lazy": "precompute", "pickleS": "pickle", "pickle_vk": "pickle",
+OPCLS = {"addSQ2": "add", "verify_bad": "verify", "sign_other_hash": "sign", "sign_default_hash": "sign", "verify_default_hash": "verify", "mul_add_rev": "mul_add", "negS": "neg", "addSG": "add", "mul_addQ": "mul_add", "verify2": "verify", "copy_vk": "pickle", "deepcopy_sk": "pickle", "to_affineQ2": "to_affine", "mul": "mul", "rmul": "mul", "mulS": "mul", "add": "add", "addGS": "add", "precompute_lazy": "precompute", "pickleS": "pickle", "pickle_vk": "pickle",
          "to_affineG": "to_affine", "scaleG": "scale", "xS": "x", "yG": "y"}
 
 
@@ -495,7 +504,7 @@ def shards(tier, seed):
         out.append(("every_instruction_%d" % i, dict(kind="random", scenarios=(18 if q else 72), per=4 if q else 20, instr="ALL", pswitch=(0.003, 0.01, 0.03), offset=i * 9)))
     nst = 6 if q else 16
     for i in range(nst):
-        out.append(("stores_%d" % i, dict(kind="stores", scenarios=6 if q else 40, maxpos=150, limit2=30 if q else 400, offset=i, stride=nst)))
+        out.append(("stores_%d" % i, dict(kind="stores", scenarios=8 if q else 40, maxpos=150, limit2=30 if q else 400, offset=i, stride=nst)))
     for j, cn in enumerate(("NIST384p", "NIST521p", "NIST256p", "BRAINPOOLP320r1") if q else ("NIST384p", "NIST521p", "NIST256p", "BRAINPOOLP320r1", "BRAINPOOLP512r1", "SECP160r1", "NIST224p", "SECP256k1")):
         out.append(("stores_prod_%s" % cn, dict(kind="stores_prod", cname=cn, scenarios=(2 if cn == "NIST521p" else 3) if q else 10, maxpos=(25 if cn == "NIST521p" else 40) if q else 150, offset=j, stride=3 if q else 1)))
     out.append(("child_stores", dict(kind="stores", scenarios=4 if q else 30, maxpos=150, limit2=20 if q else 300, offset=3, _pyopt="opt")))
@@ -561,6 +570,10 @@ def run(ctx, name, kind, **kw):
                 sc = Scenario(rng, curve, dom, 2)
                 sc.age = age
                 sc.pre_precomputed = (a, b) in (("precompute", "verify"), ("verify", "precompute")) or rng.random() < 0.2
+                lim2 = kw["limit2"]
+                if "addSQ2" in (a, b):
+                    sc.zQ2 = sc.zS          # the co-Z pairs are run co-Z, and with EVERY placement of two preemptions (few yield points per operation)
+                    lim2 = 4000
                 if rng.random() < 0.5:
                     a, b = b, a
                 sc.plans[0] = [(a, sc.plans[0][0][1], sc.plans[0][0][2])]
@@ -573,7 +586,7 @@ def run(ctx, name, kind, **kw):
                 for _d in S.enumerate_delays(run_once, 1, None, None):
                     if ctx.expired():
                         break
-                for _d in S.enumerate_delays(run_once, 2, kw["limit2"], rng):
+                for _d in S.enumerate_delays(run_once, 2, lim2, rng):
                     if ctx.expired():
                         break
                 # and with the roles exchanged (the OTHER operation is the one that is suspended once)
